@@ -358,7 +358,13 @@ def run_playback(root, h, test_text, replay_path):
         fh.write(f"// concrete playback of Kani counterexample for harness {h.name}\n")
         fh.write(f"// re-run: ./check {h.props[0]} --replay {replay_path}\n")
         # harness modules may shadow `Vec` (heapless); name the std types explicitly
-        fh.write(test_text.replace("Vec<Vec<u8>>", "std::vec::Vec<std::vec::Vec<u8>>"))
+        # keep only the test itself: Kani's doc comment repeats the failed assertion text, which may span
+        # several lines (and then is not a comment any more)
+        head = test_text[:test_text.index("#[test]")] if "#[test]" in test_text else ""
+        body = test_text[len(head):]
+        for ln in head.splitlines():
+            fh.write("// " + ln.lstrip("/ ").rstrip() + "\n")
+        fh.write(body.replace("Vec<Vec<u8>>", "std::vec::Vec<std::vec::Vec<u8>>"))
     return replay_file(root, h, replay_path)
 
 
@@ -383,7 +389,7 @@ def replay_file(root, h, replay_path):
             try:
                 # build first (not timed), then run the one test under a watchdog: a playback that does not
                 # terminate reproduces a non-termination counterexample (failed unwinding assertion)
-                subprocess.run(cmd[:-2] + ["--no-run"], cwd=mirror, env=kani_env(), stdout=lf,
+                subprocess.run(cmd[:-1] + ["--list"], cwd=mirror, env=kani_env(), stdout=lf,
                                stderr=subprocess.STDOUT, timeout=3600)
                 p = subprocess.run(cmd, cwd=mirror, env=kani_env(), stdout=lf,
                                    stderr=subprocess.STDOUT, timeout=300)
